@@ -440,6 +440,11 @@ def gen_cases(tier):
             yield ("fan", dA, (f1, f2), "none", "program", False)
         for f1, f2 in itertools.product(["only", "rename", "only+rename", "two-stmts"], repeat=2):
             yield ("double", dA, (f1, f2), "none", "modproc", False)
+        # a USE without any list next to one with a list, either order: everything public, plus the local names
+        for f2 in ("only", "only+rename", "only-twice", "only-upper"):
+            for c in ("modproc", "program", "module"):
+                yield ("double", dA, ("plain", f2), "none", c, False)
+                yield ("double", dA, (f2, "plain"), "none", c, False)
         # an unknown (third-party) module named before the project modules in every using scope
         for f in F:
             for c in cons_all:
